@@ -264,6 +264,7 @@ pub fn classify(c: &Case) -> Classes {
         .tag(c.programs.iter().flatten().any(|t| matches!(t, Task::Burst { .. })), "burst-task")
         .tag(derive_bursts >= 2, ">=2-threads-bursting-derive_key")
         .tag(c.programs.iter().any(|p| matches!(p.first(), Some(Task::CHist(_)))), "first-call-is-C(detection-race)")
+        .tag(c.programs.iter().filter(|p| p.iter().any(|t| matches!(t, Task::Hist(h) if matches!(h.ops.first().and_then(|o| o.absorbing()), Some(crate::hist::Size::Abs(n)) if *n > 1_048_576)))).count() >= 2, ">=2-threads-streaming->1MiB")
 }
 
 fn task_strategy() -> BoxedStrategy<Task> {
@@ -299,18 +300,52 @@ fn task_strategy() -> BoxedStrategy<Task> {
     }
 }
 
+/// One long stream (64 KiB .. 3 MiB) through one of the streaming / bulk entry points, then finalize:
+/// the sizes at which internal buffering strategies (read buffers, mmap thresholds, rayon splitting) change.
+fn big_stream_task() -> BoxedStrategy<Task> {
+    use crate::hist::Size;
+    use c02::Op;
+    let len = prop_oneof![
+        2 => 60_000u32..=140_000,
+        2 => 1_000_000u32..=1_100_000,
+        3 => 1_100_000u32..=3_000_000,
+    ];
+    (gen::mode4(), gen::content(), len, 0u8..8, any::<u64>(), 0u32..=70_000)
+        .prop_map(|(mode, content, len, api, seed, tail)| {
+            let s = Size::Abs(len);
+            let op = if cfg!(feature = "full") {
+                match api {
+                    0 | 1 | 2 => Op::UpdateReader(s, seed),
+                    3 => Op::IoCopy(s),
+                    4 => Op::UpdateMmap(s),
+                    5 => Op::UpdateMmapRayon(s),
+                    6 => Op::UpdateRayon(s),
+                    _ => Op::WriteAll(s),
+                }
+            } else {
+                Op::Update(s)
+            };
+            Task::Hist(c02::History { mode, content, budget: 3_200_000, ops: vec![op, Op::Finalize, Op::Update(Size::Abs(tail)), Op::FinalizeXof(100)] })
+        })
+        .boxed()
+}
+
 fn strategy(tier: Tier) -> BoxedStrategy<Case> {
     let reps = tier.pick(12u8, 40u8);
-    (crate::gen::select(vec![2usize, 2, 4, 4, 8, 16, 32]), any::<u64>())
-        .prop_flat_map(move |(n, _)| prop::collection::vec(prop::collection::vec(task_strategy(), 1..=3), n..=n))
-        .prop_map(move |programs| Case { programs, repeats: reps })
-        .boxed()
+    let mixed = (crate::gen::select(vec![2usize, 2, 4, 4, 8, 16, 32]), any::<u64>())
+        .prop_flat_map(move |(n, _)| prop::collection::vec(prop::collection::vec(prop_oneof![12 => task_strategy(), 1 => big_stream_task()], 1..=3), n..=n))
+        .prop_map(move |programs| Case { programs, repeats: reps });
+    // every thread streams a long input at the same time (fewer repetitions: each is long)
+    let streams = crate::gen::select(vec![2usize, 3, 4, 8])
+        .prop_flat_map(move |n| prop::collection::vec(prop::collection::vec(big_stream_task(), 1..=2), n..=n))
+        .prop_map(move |programs| Case { programs, repeats: core::cmp::max(3, reps / 4) });
+    prop_oneof![6 => mixed, 1 => streams].boxed()
 }
 
 pub fn subs() -> Vec<Box<dyn DynSub>> {
     vec![Box::new(PropSub::<Case> {
         name: "threads-fresh-process",
-        rule: "proptest: T in {2,4,8,16,32} threads, each with its own program of 1-3 tasks on its own instances (C01 one-shots, C02 histories incl. update_rayon/mmap, C03 XOF-reader histories, C06 histories on C hashers of both library builds with CPU detection left to race, and bursts of 50-400 construct-update-finalize rounds in every mode on either library), started together by a barrier in a FRESH child process and repeated 12x (quick) / 40x (thorough); oracle: every output of every thread equals the spec model (what the program yields alone) and the process exits cleanly; non-trivial = >=2 threads whose programs both hash > 16 chunks",
+        rule: "proptest: T in {2,4,8,16,32} threads, each with its own program of 1-3 tasks on its own instances (C01 one-shots, C02 histories incl. update_rayon/mmap, C03 XOF-reader histories, C06 histories on C hashers of both library builds with CPU detection left to race, bursts of 50-400 construct-update-finalize rounds in every mode on either library, and long streams of 60 KiB-3 MiB through update_reader/io::copy/update_mmap(_rayon)/update_rayon/write_all; one case in seven has every thread streaming at once), started together by a barrier in a FRESH child process and repeated 12x (quick) / 40x (thorough); oracle: every output of every thread equals the spec model (what the program yields alone) and the process exits cleanly; non-trivial = >=2 threads whose programs both hash > 16 chunks",
         cases: (320, 4_000),
         strategy,
         classify,
